@@ -6,6 +6,7 @@ import (
 	"fmt"
 	"math/rand"
 	"regexp"
+	"runtime"
 	"sort"
 	"strconv"
 	"strings"
@@ -431,14 +432,43 @@ func (g *gatedEngine) run(sc GScenario, slot int) {
 	var out Outcome
 	var fut Future
 	var doneBefore, doneAfter bool
+	var pollOut [2]Outcome
+	var pollPanic [2]any
+	var polled [2]bool
+	var pwg sync.WaitGroup
+	stopPoll := make(chan struct{})
+	defer close(stopPoll)
 	started := make(chan struct{})
 	task := h.Go("call:"+sc.Variant, func() {
 		if async {
 			fut = StartAsync(cl.Cfg, sc.Variant, ctx, req, f)
 			doneBefore = fut.Done()
+			// pollers: spin on Done() and call Get() the moment it reports true; what they obtain must be the call's outcome
+			for k := range pollOut {
+				pwg.Add(1)
+				go func(k int) {
+					defer pwg.Done()
+					defer func() {
+						if r := recover(); r != nil {
+							pollPanic[k] = r
+						}
+					}()
+					for !fut.Done() {
+						select {
+						case <-stopPoll:
+							return
+						default:
+							runtime.Gosched()
+						}
+					}
+					pollOut[k] = fut.Get()
+					polled[k] = true
+				}(k)
+			}
 			close(started)
 			out = fut.Get()
 			doneAfter = fut.Done()
+			pwg.Wait()
 		} else {
 			close(started)
 			out = CallQC(cl.Cfg, sc.Variant, ctx, req, f)
@@ -864,6 +894,16 @@ func (g *gatedEngine) run(sc GScenario, slot int) {
 	if async {
 		if !doneAfter {
 			g.viol("C02", "async-not-done", "Async.Done() false after Get returned", det(""))
+		}
+		for k := range pollOut {
+			if pollPanic[k] != nil {
+				g.viol("C02", "async-get-panics", fmt.Sprintf("Get called right after Done() reported true panicked: %.200v", pollPanic[k]), det(""))
+			} else if polled[k] {
+				R.Count("async.gets_right_after_done_turned_true", 1)
+				if pollOut[k].Val() != out.Val() || fmt.Sprint(pollOut[k].Err) != fmt.Sprint(out.Err) {
+					g.viol("C02", "async-get-unstable", fmt.Sprintf("Get called right after Done() reported true yielded (%v, %v), a later Get yielded (%v, %v)", pollOut[k].Val(), pollOut[k].Err, out.Val(), out.Err), det(""))
+				}
+			}
 		}
 		var wg sync.WaitGroup
 		res := make([]Outcome, 3)
